@@ -420,7 +420,7 @@ def check_ia(case, ctx):
     for r in case["react"]:
         classes.append("ia:react=" + r["kind"])
     if case.get("hist"):
-        classes.append("ia:history=%d" % len(case["hist"]))
+        classes.append("ia:history(1-2_earlier_runs_on_the_instance)")
         mine = {db.master[c["el"]].base for sol in case["sols"] for c in sol["comps"]}
         if any(db.master[c["el"]].base not in mine for h in case["hist"] for c in h["comps"]):
             classes.append("ia:history_had_elements_absent_from_the_case")
@@ -745,7 +745,7 @@ def check_path(case, ctx):
     if any(abs(CATIONS[c]) == 2 for c in cats) and any(CATIONS[c] == 1 for c in cats):
         classes.append("path:1-2_cation_mixing(etheta)")
     if case.get("hist"):
-        classes.append("path:history=%d" % len(case["hist"]))
+        classes.append("path:history(1-2_earlier_runs_on_the_instance)")
         mine = set()
         for x, _ in case["salts"]:
             mine |= {salt_info(x)["cation"], salt_info(x)["anion"]}
@@ -757,8 +757,6 @@ def check_path(case, ctx):
             classes.append("path:history_had_ions_absent_from_the_path")
         if "Cl" in other - mine:
             classes.append("path:chloride-free_path_after_chloride_history")
-    else:
-        classes.append("path:fresh_instance")
     if an["skipped"]:
         ctx.event("path:terms_skipped(species_present_at_one_end_only)", an["skipped"])
     return {"nontrivial": nt, "classes": classes}
